@@ -279,6 +279,20 @@ pub fn explore(ctx: &Ctx) {
         macro_rules! mal { ($($t:ty),*) => {$( judge_text::<$t>(ctx, &mut l, t, None); )*}; }
         mal!(Latitude, Longitude, Elevation, Gmt);
     }
+    // long and non-ASCII garbage: a multi-byte character at every byte offset 0..40 of a digit string,
+    // plus a few real-world spellings (Arabic-Indic digits, degree sign, full-width digits)
+    let mut garbage: Vec<String> = vec!["-\u{667}\u{667}\u{66b}\u{662}\u{660}\u{668}\u{665}\u{669}\u{661}\u{664}\u{660}\u{660}".into(), "39.018165100000\u{b0}N".into(), "\u{ff11}\u{ff12}.\u{ff15}".into(), "1".repeat(400), format!("{}x", "9".repeat(64))];
+    for n in 0..40 {
+        for ch in ["\u{e9}", "\u{b0}", "\u{2212}", "\u{1f30d}"] {
+            garbage.push(format!("{}{}{}", "1".repeat(n), ch, "1".repeat(20)));
+        }
+    }
+    ctx.alphabet("long_non_ascii_texts", json!(garbage.len()));
+    for t in &garbage {
+        let denotes = if t.chars().all(|c| c.is_ascii_digit()) { t.parse::<f64>().ok() } else { None };
+        macro_rules! mal2 { ($($t:ty),*) => {$( judge_text::<$t>(ctx, &mut l, t, denotes); )*}; }
+        mal2!(Latitude, Longitude, Elevation, Gmt);
+    }
     for t in ["null", "\"12\"", "true", "[1]", "{}", "NaN", "Infinity", "1e400", "-1e400", "12abc", "", "1e", "01"] {
         macro_rules! malj { ($($t:ty),*) => {$( judge_json::<$t>(ctx, &mut l, t); )*}; }
         malj!(Latitude, Longitude, Elevation, Gmt, Pressure, Temperature);
